@@ -179,7 +179,7 @@ def replay_special(prop, path, d):
 AUX = os.path.join(VERIF, "aux")
 
 
-def _aux_build_run(name, std, cxx="g++", extra=("-O1", "-fsanitize=address", "-DNDEBUG")):
+def _aux_build_run(name, std, cxx="g++", extra=("-O1", "-fsanitize=address", "-DNDEBUG"), args=()):
     """Compile aux/<name>.cpp against /repo's header (cached by tree key) and run it.
     Returns (compiled_ok, compiler_output, run_rc, run_stdout)."""
     key = B.tree_key()
@@ -197,7 +197,7 @@ def _aux_build_run(name, std, cxx="g++", extra=("-O1", "-fsanitize=address", "-D
         if p.returncode != 0:
             return False, p.stdout, None, ""
         os.replace("%s.tmp.%d" % (exe, os.getpid()), exe)
-    rc, out, err = D.run_proc([exe], timeout=600)
+    rc, out, err = D.run_proc([exe] + [str(a) for a in args], timeout=1800)
     return True, "", rc, out
 
 
@@ -217,7 +217,7 @@ def _first_errors(text, n=25):
     return "\n".join(lines[:n])
 
 
-def run_aux(prop, name, stds, fail_prefix, oracle_fail, oracle_compile, summary_prefix, cxxs=("g++",)):
+def run_aux(prop, name, stds, fail_prefix, oracle_fail, oracle_compile, summary_prefix, cxxs=("g++",), args=()):
     """Returns (violations, coverage-dict)."""
     violations = []
     total_cases = 0
@@ -225,7 +225,7 @@ def run_aux(prop, name, stds, fail_prefix, oracle_fail, oracle_compile, summary_
     from concurrent.futures import ThreadPoolExecutor
     combos = [(cxx, std) for cxx in cxxs for std in stds]
     with ThreadPoolExecutor(max_workers=8) as ex:
-        results = list(ex.map(lambda cs: _aux_build_run(name, cs[1], cs[0]), combos))
+        results = list(ex.map(lambda cs: _aux_build_run(name, cs[1], cs[0], args=args), combos))
     for (cxx, std), (ok, cout, rc, out) in zip(combos, results):
         if True:
             if not ok:
@@ -292,7 +292,7 @@ def aux_prebuild():
     """setup: compile the auxiliary programs of the quick tier."""
     from concurrent.futures import ThreadPoolExecutor
     jobs = [(n, std) for n in ("conv_grid", "archetypes", "noexcept_table") for std in ("11", "17", "20")]
-    jobs += [("max_grid", "20"), ("cmp_grid", "17"), ("cmp_grid", "20")]
+    jobs += [("max_grid", "20"), ("cmp_grid", "17"), ("cmp_grid", "20"), ("real_types", "11"), ("real_types", "20")]
     with ThreadPoolExecutor(max_workers=9) as ex:
         list(ex.map(lambda j: _aux_build_run(j[0], j[1]), jobs))
 
@@ -576,8 +576,12 @@ def c01(prop, tier, seed, known):
     stds = ["11", "17", "20"] if q else ["11", "14", "17", "20", "2b"]
     v1, c1 = run_aux(prop, "conv_grid", stds, "CONVFAIL", "model.conv_value", "model.conv_compile", "CONV")
     v2, c2 = run_aux(prop, "archetypes", stds, "ARCHFAIL", "model.arch_value", "model.arch_compile", "ARCH")
-    return dict(coverage=dict(conversion_grid=c1, archetypes=c2, extra_evaluations=c1["cases"] + c2["cases"]),
-                violations=v1 + v2)
+    # seeded lock-step histories over real-world element types (std::string, unique_ptr, shared_ptr, ...)
+    v3, c3 = run_aux(prop, "real_types", ["11", "20"] if q else ["11", "17", "20"], "REALFAIL", "model.real_types",
+                     "model.real_types_compile", "REAL", args=(seed, 4000 if q else 40000))
+    return dict(coverage=dict(conversion_grid=c1, archetypes=c2, real_element_types=c3,
+                              extra_evaluations=c1["cases"] + c2["cases"] + c3["cases"]),
+                violations=v1 + v2 + v3)
 
 
 SPECIALS["C01"] = c01
